@@ -45,13 +45,14 @@ class C03(ContCheck):
         ex2 = contlib.map_exhaustive(3 if quick else 4, contlib.MAP_SYMBOLS2)
         sized = contlib.map_sized(contlib.SIZES_QUICK if quick else contlib.SIZES_THOROUGH, rng, all_positions=not quick)
         recv = contlib.map_receiving()
+        pairvals = contlib.map_pair_values(rng, 60 if quick else 3000)
         self.exhaustive_note = ('all %d sequences of %d operations from %s and all %d sequences of %d operations of the composite '
                                 'alphabet %s (own-object arguments, pair form, fork = dup and use the copy, swap), on three classes; '
                                 '%d histories on maps of %s keys; %d receiving-list histories (get_keys/get_values/get_pairs into a list of '
-                                'each of the three classes that already holds 0, 1, 2, 3, 5 objects, maps of 0..3 and 40 entries)'
+                                'each of the three classes that already holds 0, 1, 2, 3, 5 objects, maps of 0..3 and 40 entries); %d histories with pair values <A, B> (set_pv: values that compare equal and differ)'
                                 % (len(ex), depth, contlib.MAP_SYMBOLS, len(ex2), 3 if quick else 4, contlib.MAP_SYMBOLS2, len(sized),
-                                   '31..257' if quick else '31..1025', len(recv)))
-        for ops in recv + ex + ex2 + sized:
+                                   '31..257' if quick else '31..1025', len(recv), len(pairvals)))
+        for ops in recv + pairvals + ex + ex2 + sized:
             cases += all_classes('map', ops)
         return cases
 
